@@ -102,6 +102,7 @@ func init() {
 	streams["signbytes"] = func(dir string, rng *rand.Rand, n int, tier string) {
 		s := NewStream(dir, "signbytes")
 		defer s.Close(dir, "signbytes")
+		monC14Transplant(s)
 		c, err := NewChain(memDB(), tmpHome(), nil, 0, nil)
 		if err != nil {
 			panic(err)
